@@ -99,6 +99,10 @@ func hist(a map[string]string) {
 	items := make([]*item, n)
 	for i := 0; i < n; i++ {
 		fx := fixed[i%len(fixed)]
+		if gen := common.ArgInt(a, "gen", 0); gen > 0 && i%gen == gen-1 {
+			// every gen-th history runs on a configuration of the shared federation generator
+			fx = c09lab.Generated(seed, i)
+		}
 		if a["cfg"] != "" {
 			fx = c09lab.FixedByName(a["cfg"])
 		}
